@@ -84,10 +84,10 @@ theorem withPath_path (r : Req) (p : Bytes) : (r.withPath p).path = p := rfl
 /-- **every handler invocation was preceded by a passed gate evaluated on the request as it was
     at that moment** (same headers, same TLS state, the path of that invocation) and was chosen by
     the mux for that path. -/
-theorem serve_trace_gated {σ : Type} (H : Bytes → Req → σ → σ) (h : Handler) (idx : Index) :
+theorem serve_trace_gated {σ : Type} (H : Bytes → Req → σ → σ) (mux : Bytes → Bytes → Route) (h : Handler) (idx : Index) :
     ∀ (fuel : Nat) (r : Req) (s : σ) (tr : List Dispatch) (c : Nat) (d : Dispatch),
-      d ∈ (serve H h idx fuel r s tr c).trace →
-      d ∈ tr ∨ (Passes h (r.withPath d.path) ∧ route h.pats d.path = .handler d.pat) := by
+      d ∈ (serve H mux h idx fuel r s tr c).trace →
+      d ∈ tr ∨ (Passes h (r.withPath d.path) ∧ mux r.method d.path = .handler d.pat) := by
   intro fuel
   induction fuel with
   | zero => intro r s tr c d hd; left; simpa [serve] using hd
@@ -102,7 +102,7 @@ theorem serve_trace_gated {σ : Type} (H : Bytes → Req → σ → σ) (h : Han
       · left; simpa using hd
       · left; simpa using hd
       · rename_i pat hroute
-        have here : Passes h (r.withPath r.path) ∧ route h.pats r.path = .handler pat :=
+        have here : Passes h (r.withPath r.path) ∧ mux r.method r.path = .handler pat :=
           ⟨⟨c', hg⟩, hroute⟩
         split at hd
         · split at hd
@@ -127,9 +127,9 @@ theorem serve_trace_gated {σ : Type} (H : Bytes → Req → σ → σ) (h : Han
           · right; subst hd; exact here
 
 /-- the trace only grows -/
-theorem serve_trace_prefix {σ : Type} (H : Bytes → Req → σ → σ) (h : Handler) (idx : Index) :
+theorem serve_trace_prefix {σ : Type} (H : Bytes → Req → σ → σ) (mux : Bytes → Bytes → Route) (h : Handler) (idx : Index) :
     ∀ (fuel : Nat) (r : Req) (s : σ) (tr : List Dispatch) (c : Nat),
-      ∃ ext, (serve H h idx fuel r s tr c).trace = tr ++ ext := by
+      ∃ ext, (serve H mux h idx fuel r s tr c).trace = tr ++ ext := by
   intro fuel
   induction fuel with
   | zero => intro r s tr c; exact ⟨[], by simp [serve]⟩
@@ -156,12 +156,12 @@ theorem serve_trace_prefix {σ : Type} (H : Bytes → Req → σ → σ) (h : Ha
 /-- **the server state changes only through a handler that was dispatched**: either the state
     is untouched, or the request ended in a non-redirecting handler `pat`, which is the last entry
     of the trace, and the state is that handler's effect. -/
-theorem serve_state {σ : Type} (H : Bytes → Req → σ → σ) (h : Handler) (idx : Index) :
+theorem serve_state {σ : Type} (H : Bytes → Req → σ → σ) (mux : Bytes → Bytes → Route) (h : Handler) (idx : Index) :
     ∀ (fuel : Nat) (r : Req) (s : σ) (tr : List Dispatch) (c : Nat),
-      (serve H h idx fuel r s tr c).state = s ∨
-      ∃ pat, (serve H h idx fuel r s tr c).final = .handled pat ∧
-        (⟨pat, (serve H h idx fuel r s tr c).path⟩ : Dispatch) ∈ (serve H h idx fuel r s tr c).trace ∧
-        (serve H h idx fuel r s tr c).state = H pat (r.withPath (serve H h idx fuel r s tr c).path) s := by
+      (serve H mux h idx fuel r s tr c).state = s ∨
+      ∃ pat, (serve H mux h idx fuel r s tr c).final = .handled pat ∧
+        (⟨pat, (serve H mux h idx fuel r s tr c).path⟩ : Dispatch) ∈ (serve H mux h idx fuel r s tr c).trace ∧
+        (serve H mux h idx fuel r s tr c).state = H pat (r.withPath (serve H mux h idx fuel r s tr c).path) s := by
   intro fuel
   induction fuel with
   | zero => intro r s tr c; left; simp [serve]
@@ -185,16 +185,47 @@ theorem serve_state {σ : Type} (H : Bytes → Req → σ → σ) (h : Handler) 
             · right; exact ⟨p, h1, h2, h3⟩
         · right; exact ⟨pat, rfl, by simp, rfl⟩
 
+/-- CORS headers appear on the response only if some pass of the gate granted them -/
+theorem serve_cors {σ : Type} (H : Bytes → Req → σ → σ) (mux : Bytes → Bytes → Route) (h : Handler) (idx : Index) :
+    ∀ (fuel : Nat) (r : Req) (s : σ) (tr : List Dispatch) (c : Nat),
+      (serve H mux h idx fuel r s tr c).cors ≤ c ∨
+      ∃ p c', c' ≠ 0 ∧ gate h (r.withPath p) = .pass c' := by
+  intro fuel
+  induction fuel with
+  | zero => intro r s tr c; left; simp [serve]
+  | succ n ih =>
+    intro r s tr c
+    unfold serve
+    split
+    · left; simp
+    · left; simp
+    · rename_i c' hg
+      by_cases hc : c' = 0
+      · subst hc
+        split
+        · left; simp
+        · left; simp
+        · split
+          · split
+            · left; simp
+            · left; simp
+            · rename_i np _
+              rcases ih (r.withPath np) s (tr ++ [⟨_, r.path⟩]) (max c 0) with hle | hex
+              · left; simpa using hle
+              · right; exact hex
+          · left; simp
+      · right; exact ⟨r.path, c', hc, hg⟩
+
 /-- nothing dispatched ⇒ nothing changed -/
-theorem serve_untouched_of_no_dispatch {σ : Type} (H : Bytes → Req → σ → σ) (h : Handler) (idx : Index)
+theorem serve_untouched_of_no_dispatch {σ : Type} (H : Bytes → Req → σ → σ) (mux : Bytes → Bytes → Route) (h : Handler) (idx : Index)
     (fuel : Nat) (r : Req) (s : σ)
-    (hno : ∀ d, d ∈ (serveHTTP H h idx fuel r s).trace → False) :
-    Untouched (serveHTTP H h idx fuel r s) s := by
+    (hno : ∀ d, d ∈ (serveHTTP H mux h idx fuel r s).trace → False) :
+    Untouched (serveHTTP H mux h idx fuel r s) s := by
   constructor
-  · cases ht : (serveHTTP H h idx fuel r s).trace with
+  · cases ht : (serveHTTP H mux h idx fuel r s).trace with
     | nil => rfl
     | cons d t => exact absurd (hno d (by rw [ht]; simp)) id
-  · rcases serve_state H h idx fuel r s [] 0 with hs | ⟨pat, _, hmem, _⟩
+  · rcases serve_state H mux h idx fuel r s [] 0 with hs | ⟨pat, _, hmem, _⟩
     · exact hs
     · exact absurd (hno _ hmem) id
 
